@@ -50,6 +50,7 @@ struct EnvState {
     const u8* watch_p = nullptr; size_t watch_n = 0; u64 watch_hits = 0;   // caller's key buffer during polyseed_keygen
     int task_blk_seq[MAXT + 1] = {0};
     Rng sched_rng{1};
+    bool seam_chase = false, write_chase = false, yield_at_op = false;
 };
 extern EnvState E;
 extern Task tasks[MAXT];
@@ -63,6 +64,7 @@ extern bool have_edges, have_monitor;
 void start_tasks(int n);
 int resume(Task* t);
 void task_yield(Task* t, int why);
+void boundary_tick(Task* t);
 PtrInfo classify(const void* p, Task* t, OpRec* rec);
 void make_deps(polyseed_dependency* d, int gen, unsigned opt);
 void reset_run();
